@@ -144,6 +144,8 @@ def run(ctx):
     ctx.assume("trajectory equality up to discretisation error for every split point is numerical: declined; these are necessary conditions only")
     repo = Repo()
     rule_resume(ctx, repo)
+    from rules import c14_views
+    c14_views.run_rule(ctx, repo)
     rule_snapshot(ctx, repo)
     rule_effects(ctx, repo)
     before = len(ctx.results)
